@@ -9,8 +9,10 @@ import (
 	"github.com/jsightapi/jsight-api-go-library/jerr"
 )
 
+// collectRules registers the ENUM rules in the order in which the ENUM
+// directives stand in the document after PASTE expansion.
 func (core *JApiCore) collectRules() *jerr.JApiError {
-	return core.collectRulesFromDirectives(core.directives)
+	return core.collectRulesFromDirectives(core.directivesWithPastes)
 }
 
 func (core *JApiCore) collectRulesFromDirectives(dd []*directive.Directive) *jerr.JApiError {
